@@ -80,15 +80,17 @@ Inductive lop :=
 | LSort (i : nat).
 
 (* documented domain of the operations; sz i = current size of variable i, nv = #variables.
-   `other == this` arguments are excluded here (they are property C04's subject). *)
+   The other list may be the list itself (j = i): insert / append / prepend then add a copy of the
+   previous contents, assignment and swap leave it as it is (the formulas below read the state
+   before the operation, so they say exactly that). *)
 Definition lpre (sz : nat -> nat) (nv : nat) (op : lop) : bool :=
   match op with
   | LNew i | LAppend i _ | LPrepend i _ | LAppends i _ | LRemoveVal i _ | LFind i _ | LClear i | LSort i =>
       Nat.ltb i nv
   | LInsert i k _ => Nat.ltb i nv && Nat.leb k (sz i)
-  | LInsertList i k j => Nat.ltb i nv && Nat.ltb j nv && negb (Nat.eqb i j) && Nat.leb k (sz i)
+  | LInsertList i k j => Nat.ltb i nv && Nat.ltb j nv && Nat.leb k (sz i)
   | LAppendList i j | LPrependList i j | LSwap i j | LCopy i j | LAssign i j =>
-      Nat.ltb i nv && Nat.ltb j nv && negb (Nat.eqb i j)
+      Nat.ltb i nv && Nat.ltb j nv
   | LRemove i k => Nat.ltb i nv && Nat.ltb k (sz i)
   | LRemoveFront i | LRemoveBack i => Nat.ltb i nv && Nat.ltb 0 (sz i)
   | LEq i j | LNe i j => Nat.ltb i nv && Nat.ltb j nv
@@ -150,8 +152,8 @@ Inductive aop :=
 | AAssign (i j : nat)
 | AReserve (i : nat) (n : Z)
 | AResizeD (i : nat) (n : Z)              (* resize(n)  = resize(n, T()) *)
-| AResize (i : nat) (n : Z) (v : Z)       (* resize(n, v), v not an element of the array *)
-| AAppend (i : nat) (v : Z)               (* T& append(const T&), v not an element of the array *)
+| AResize (i : nat) (n : Z) (v : Z)       (* resize(n, v), v a foreign object *)
+| AAppend (i : nat) (v : Z)               (* T& append(const T&), v a foreign object *)
 | AAppendArr (i j : nat)
 | AAppendBuf (i : nat) (vs : list Z)      (* append(const T*, usize) from a foreign buffer *)
 | ARemoveIdx (i : nat) (k : nat)          (* void remove(usize index): ignores index >= size *)
@@ -160,14 +162,17 @@ Inductive aop :=
 | ARemoveBack (i : nat)
 | AFind (i : nat) (v : Z)
 | AClear (i : nat)
-| ASwap (i j : nat).
+| ASwap (i j : nat)
+| AAppendOwn (i k : nat)                  (* append(a[k]): the argument is a reference to an element of the array itself *)
+| AResizeOwn (i : nat) (n : Z) (k : nat). (* resize(n, a[k]): likewise *)
 
 Definition apre (sz : nat -> nat) (nv : nat) (op : aop) : bool :=
   match op with
   | ANew i | AAppend i _ | AAppendBuf i _ | ARemoveIdx i _ | AFind i _ | AClear i => Nat.ltb i nv
   | ANewCap i n | AReserve i n | AResizeD i n | AResize i n _ => Nat.ltb i nv && (0 <=? n)
-  | ACopy i j | AAssign i j | AAppendArr i j | ASwap i j => Nat.ltb i nv && Nat.ltb j nv && negb (Nat.eqb i j)
-  | ARemoveIt i k => Nat.ltb i nv && Nat.ltb k (sz i)
+  | ACopy i j | AAssign i j | AAppendArr i j | ASwap i j => Nat.ltb i nv && Nat.ltb j nv   (* j = i allowed *)
+  | ARemoveIt i k | AAppendOwn i k => Nat.ltb i nv && Nat.ltb k (sz i)
+  | AResizeOwn i n k => Nat.ltb i nv && (0 <=? n) && Nat.ltb k (sz i)
   | ARemoveFront i | ARemoveBack i => Nat.ltb i nv && Nat.ltb 0 (sz i)
   end.
 
@@ -191,6 +196,8 @@ Definition aspec (s : sstate) (op : aop) : sstate * res :=
   | ARemoveBack i => (upd i (removelast (sget i s)) s, RIt (pred (length (sget i s))))
   | AFind i v => (s, RIt (index_of v (sget i s)))
   | ASwap i j => (upd j (sget i s) (upd i (sget j s) s), RNone)
+  | AAppendOwn i k => (upd i (sget i s ++ [nth k (sget i s) 0]) s, RRef (length (sget i s)))
+  | AResizeOwn i n k => (upd i (resized (Z.to_nat n) (nth k (sget i s) 0) (sget i s)) s, RNone)
   end.
 
 Fixpoint aspec_run (s : sstate) (ops : list aop) : list (sstate * res) :=
@@ -226,7 +233,7 @@ Definition ppre (sz : nat -> nat) (nv : nat) (op : pop) : bool :=
   | PNew i | PAppend i _ | PClear i => Nat.ltb i nv
   | PRemove i k | PRemoveRef i k => Nat.ltb i nv && Nat.ltb k (sz i)
   | PRemoveFront i | PRemoveBack i => Nat.ltb i nv && Nat.ltb 0 (sz i)
-  | PSwap i j => Nat.ltb i nv && Nat.ltb j nv && negb (Nat.eqb i j)
+  | PSwap i j => Nat.ltb i nv && Nat.ltb j nv
   | PAppendN i args => Nat.ltb i nv && ctor_args_ok args
   end.
 
